@@ -203,7 +203,10 @@ def validateDevs (D : Discard) (o : Options) (st : State) : List DevField → Na
             else (validateDevs D o st ds (n + 1)).map (d' :: ·)
 
 /-- `(*messageValidator).Validate(mesg)`: the error or the validated message, and the validator's state
-afterwards (the state is updated before the developer fields are looked at, and stays updated on error) -/
+afterwards (the state is updated before the developer fields are looked at, and stays updated on error —
+also on the `errNoFields` that is returned when no field was kept and the developer-field loop kept nothing
+either: that second emptiness test, after `mesg.DeveloperFields = mesg.DeveloperFields[:valid]`, is the repair
+of KF-C10-3; before it such a message was accepted as the empty message) -/
 def validate (D : Discard) (o : Options) (st : State) (m : Message) : Except Err Message × State :=
   match validateFields D o m.fields 0 with
   | .error e => (.error e, st)
@@ -215,7 +218,9 @@ def validate (D : Discard) (o : Options) (st : State) (m : Message) : Except Err
       else
         match validateDevs D o st1 m.devFields 0 with
         | .error e => (.error e, st1)
-        | .ok ds => (.ok { m with fields := fs, devFields := ds }, st1)
+        | .ok ds =>
+          if fs.isEmpty && ds.isEmpty then (.error .noFields, st1)
+          else (.ok { m with fields := fs, devFields := ds }, st1)
 
 /-! ### specification: what validation is supposed to compute, stated without the loops -/
 
@@ -264,14 +269,16 @@ def specDevs (D : Discard) (o : Options) (st : State) (ds : List DevField) : Lis
   (ds.filter (keepDev D o st)).map (restoredDev D o st)
 
 /-- **The specification of `Validate`.** `some m'`: the message is accepted and becomes `m'`;
-`none`: it must be rejected with an error. -/
+`none`: it must be rejected with an error. A message is writable only if something of it is left to write:
+at least one kept field or one kept developer field. -/
 def specValidate (D : Discard) (o : Options) (st : State) (m : Message) : Option Message :=
   let fs := specFields D o m.fields
-  if !(fs.all fieldOk) || fs.length > 255 || (fs.isEmpty && m.devFields.isEmpty) then none
+  if !(fs.all fieldOk) || fs.length > 255 then none
   else
     let st1 := remember st m.num fs
     let ds := specDevs D o st1 m.devFields
     if !(m.devFields.all (devBacked st1)) || !(ds.all (devOk st1)) || ds.length > 255 then none
+    else if fs.isEmpty && ds.isEmpty then none    -- nothing to write: no kept field and no kept developer field
     else some { m with fields := fs, devFields := ds }
 
 /-- what the targeted protocol version allows: under exactly 1.0 no developer fields and no base type
